@@ -694,6 +694,48 @@ fn deviation_cases(item: &Item, ext: &Ext, feat: u8, comp: Comp, pairs: u8, type
     }
 }
 
+/// deviations *inside* cell values (collection counts, element lengths, extreme scalars): every offset of the rows
+/// content overwritten with boundary integers, decoded as raw cells, CqlValue and every typed target that passes type_check
+fn cell_content_cases(item: &Item, feat: u8, thorough: bool, out: &mut Vec<Case>) {
+    let Response::Result(ResultBody::Rows(rows)) = &item.resp else { return };
+    if rows.rows.is_empty() || rows.meta.no_metadata {
+        return;
+    }
+    let w = resp::encode_ext_body(&Ext::default(), &item.resp, feat & FEAT_MID != 0);
+    let Some(start) = w.fields.iter().find(|f| f.site == "rows.cell.len").map(|f| f.off) else { return };
+    let mk = |origin: String, b: Vec<u8>| Case { frame: FrameSrc::Bytes(mutated_frame(0, p::opcode::RESULT, &b, Comp::None)), comp: 0, feat, opts: decode::OPT_TYPED, cached: None, expect: None, class: "field", site: "rows.cell.content".into(), origin };
+    let v32: &[i32] = if thorough { &[0, 1, -1, -2, 0x7fff, 0xffff, i32::MAX, i32::MIN, 0x0100_0000] } else { &[0, -1, 1, i32::MAX, i32::MIN] };
+    for off in start..w.buf.len().saturating_sub(3) {
+        for v in v32 {
+            if w.buf[off..off + 4] == v.to_be_bytes() {
+                continue;
+            }
+            let mut b = w.buf.clone();
+            b[off..off + 4].copy_from_slice(&v.to_be_bytes());
+            out.push(mk(format!("{} rows content offset {off}: 4 bytes <- {v}", item.name), b));
+        }
+    }
+    let v64: &[i64] = if thorough { &[i64::MIN, i64::MAX, -1, 86_400_000_000_000, i64::MIN + 1] } else { &[i64::MIN, i64::MAX] };
+    for off in start..w.buf.len().saturating_sub(7) {
+        for v in v64 {
+            let mut b = w.buf.clone();
+            b[off..off + 8].copy_from_slice(&v.to_be_bytes());
+            out.push(mk(format!("{} rows content offset {off}: 8 bytes <- {v}", item.name), b));
+        }
+    }
+    // single bytes: 0x00 / 0x7f / 0x80 / 0xff (vints, booleans, UTF-8 continuation bytes, inet lengths)
+    for off in start..w.buf.len() {
+        for v in [0x00u8, 0x7f, 0x80, 0xff] {
+            if w.buf[off] == v || (!thorough && v == 0x7f) {
+                continue;
+            }
+            let mut b = w.buf.clone();
+            b[off] = v;
+            out.push(mk(format!("{} rows content offset {off}: byte <- {v:#x}", item.name), b));
+        }
+    }
+}
+
 /// damage to the compressed representation itself (malformed compression)
 fn comp_stream_cases(item: &Item, feat: u8, out: &mut Vec<Case>) {
     let w = resp::encode_ext_body(&Ext::default(), &item.resp, feat & FEAT_MID != 0);
@@ -970,6 +1012,7 @@ fn main() {
                 let feat = item.needs;
                 let level = if thorough { 2 } else { 1 };
                 deviation_cases(item, &exts_ref[0], feat, Comp::None, level, false, &mut cases);
+                cell_content_cases(item, feat, thorough, &mut cases);
                 // the same single deviations decoded with every other feature negotiated and typed targets on
                 if thorough {
                     for f in [FEAT_MID, FEAT_RATE, FEAT_MID | FEAT_RATE, 0x0f, FEAT_LWT | FEAT_TABLETS] {
@@ -1039,7 +1082,7 @@ fn main() {
     if unrep > 0 && r.args.extra_value("--only").is_none() {
         vcore::machinery_error(&format!("{unrep} fatal outcomes did not reproduce when the case was re-run alone"));
     }
-    r.set_rule("E-ENUM with deviation bounding. 0 deviations: corpus of well-formed frames of every response kind (ERROR all 19 codes with extras, READY, AUTHENTICATE, SUPPORTED, RESULT void/rows/set_keyspace/prepared/schema_change, EVENT all kinds, AUTH_CHALLENGE/SUCCESS; rows over a depth-2 type alphabet incl. class-string forms and vectors, every metadata flag combination, 0..2 rows, cached-metadata twin for no_metadata) x extension subsets x {none, LZ4, Snappy} x {matches, literal-only} x feature combinations (quick: 4; thorough: all 16), decoded through read_response_frame -> parse_response_body_extensions -> ResponseV2::deserialize (+ legacy Response for events) -> deserialize_metadata -> rows as raw cells, as Row/CqlValue and as every typed tuple of the target alphabet that passes type_check; decoded text must equal the text derived from the cqlref model. 1 deviation: every stream truncation, every body truncation with consistent header, every length/count/flag/id field x {0,1,-1,-2,+1,-1,0x7fff,0xffff,i32::MAX,i32::MIN, bit flips, all type ids / result kinds / opcodes / error codes}, header fields, damaged compressed streams (every cut, every byte x 4 values, announced length), bad class strings, type nesting 1e2..1e6 (binary) and 4..7000 (class strings). 2 deviations: field pairs (quick: same region or adjacent, reduced value alphabet; thorough: same region at any distance or any two fields <= 12 apart, full alphabet) and field mutation + body truncation right after the field / right before the end; thorough also repeats the single deviations under 6 feature sets with typed targets. Two-column rows over ordered pairs of the type alphabet (quick: a third; thorough: all). Sampled (labelled): random bodies behind valid headers. Oracle per case in a child process: no panic/abort/signal/stack overflow (2 MiB thread)/more than 4 s of CPU time for one decode; largest single request and peak live bytes <= 64 KiB + 256 x frame length by a counting allocator that reports before the request is served and refuses > 64 MiB. distinct_nontrivial = round trips that matched + deviations rejected with a clean error.");
+    r.set_rule("E-ENUM with deviation bounding. 0 deviations: corpus of well-formed frames of every response kind (ERROR all 19 codes with extras, READY, AUTHENTICATE, SUPPORTED, RESULT void/rows/set_keyspace/prepared/schema_change, EVENT all kinds, AUTH_CHALLENGE/SUCCESS; rows over a depth-2 type alphabet incl. class-string forms and vectors, every metadata flag combination, 0..2 rows, cached-metadata twin for no_metadata) x extension subsets x {none, LZ4, Snappy} x {matches, literal-only} x feature combinations (quick: 4; thorough: all 16), decoded through read_response_frame -> parse_response_body_extensions -> ResponseV2::deserialize (+ legacy Response for events) -> deserialize_metadata -> rows as raw cells, as Row/CqlValue and as every typed tuple of the target alphabet that passes type_check; decoded text must equal the text derived from the cqlref model. 1 deviation: every stream truncation, every body truncation with consistent header, every length/count/flag/id field x {0,1,-1,-2,+1,-1,0x7fff,0xffff,i32::MAX,i32::MIN, bit flips, all type ids / result kinds / opcodes / error codes}, header fields, every offset of the rows content x boundary 4-byte / 8-byte / 1-byte values (counts and lengths inside cell values, extreme scalars; typed targets on), damaged compressed streams (every cut, every byte x 4 values, announced length), bad class strings, type nesting 1e2..1e6 (binary) and 4..7000 (class strings). 2 deviations: field pairs (quick: same region or adjacent, reduced value alphabet; thorough: same region at any distance or any two fields <= 12 apart, full alphabet) and field mutation + body truncation right after the field / right before the end; thorough also repeats the single deviations under 6 feature sets with typed targets. Two-column rows over ordered pairs of the type alphabet (quick: a third; thorough: all). Sampled (labelled): random bodies behind valid headers. Oracle per case in a child process: no panic/abort/signal/stack overflow (2 MiB thread)/more than 4 s of CPU time for one decode; largest single request and peak live bytes <= 64 KiB + 256 x frame length by a counting allocator that reports before the request is served and refuses > 64 MiB. distinct_nontrivial = round trips that matched + deviations rejected with a clean error.");
     r.set_exhaustive(true);
     r.assume("row iteration is consumer-driven: the harness pulls at most 4096 rows per iterator and stops at the first error; every step is checked");
     r.assume("the decode runs on a 2 MiB thread (tokio worker default), RLIMIT_AS 2 GiB protects the checker only; verdicts come from the counting allocator");
